@@ -175,8 +175,16 @@ def run(chk):
     chk.assumptions = ['after \\appendix the next numbered object is a top-level unit (a number printed with a zero alphabetic '
                        'component is outside the representation\'s range)',
                        'page numbers, \\numberwithin and language-specific formats are out of scope']
-    maxev = 3 if tier == 'quick' else 4
+    maxev = 3
     nd = '2' if tier == 'quick' else '1, 2, 3'
+    if tier != 'quick':
+        # one event more: invariants only (one printed behaviour per state at this bound exhausts the memory of the harness)
+        r4 = tlc.run('Counters', cfg_text=(CFG % ('2', 4, 'TRUE' if os.environ.get('C08_ASBUILT') else 'FALSE')).replace('INVARIANT EmitState\n', ''),
+                     timeout=3400, heap='12g', want_beh=False)
+        chk.add_tlc(r4, 'mc(MaxEvents=4)')
+        if not r4.ok:
+            chk.violation('design:' + ','.join(r4.violated or ['error']),
+                          'TLC found a counterexample in the Counters design: %s\n%s' % (r4.violated, r4.trace_text[:2500]))
     res = tlc.run('Counters', cfg_text=CFG % (nd, maxev, 'TRUE' if os.environ.get('C08_ASBUILT') else 'FALSE'), timeout=3400, heap='12g')
     chk.add_tlc(res, 'mc+states(MaxEvents=%d)' % maxev)
     if not res.ok:
